@@ -103,7 +103,7 @@ PointsOf(edges) == {edges[k][1] : k \in 1..Len(edges)} \cup {edges[k][2] : k \in
 SameNet(e1, e2) ==
   \A a \in PointsOf(e1) \cup PointsOf(e2), b \in PointsOf(e1) \cup PointsOf(e2) : a = b \/ Net(e1, a, b) = Net(e2, a, b)
 \* the loops of PathSem.FillLoops as edges (polyline paths)
-LoopEdges(loops) ==
+LoopsAsEdges(loops) ==
   LET le(l) == [k \in 1..Len(l) |-> <<l[k], l[IF k = Len(l) THEN 1 ELSE k + 1], FALSE>>]
       RECURSIVE cat(_)
       cat(k) == IF k > Len(loops) THEN <<>> ELSE le(loops[k]) \o cat(k + 1)
